@@ -93,11 +93,11 @@ impl Property for C05 {
         "C05"
     }
     fn rule(&self) -> &'static str {
-        "case = valid instance (all kinds, optional bounds, removed constraints, irrelevant/fixed/dependent variables, metadata) x state class (complete | omits irrelevant | lacks a used variable | out of bound by 2e-7 or 0.5e-7 | constraint values placed at 0, +-0.5e-6, +-2e-6); \
+        "case = valid instance (all kinds, optional bounds, removed constraints, irrelevant/fixed/dependent variables, metadata) x state class (complete | omits irrelevant | lacks a used variable | out of bound by 2e-7 or 0.5e-7 | bound of magnitude 1e9..4e15 with the value 0, 5, 6, 7 or 40 representable steps outside | constraint values placed at 0, +-0.5e-6, +-2e-6); \
          oracle = reference evaluator of the statement over exact rationals; non-trivial = (>=1 active and >=1 removed constraint) or rejection case or state omitting an irrelevant variable; distinct = sha256(instance, state)"
     }
     fn required_labels(&self) -> Vec<String> {
-        ["flag-relaxed!=flag-all", "tolerance-inside", "tolerance-outside", "bound-reject", "bound-tolerated", "missing-used", "irrelevant-filled", "dependency", "fixed-variable", "removed-constraint", "feasible=true", "feasible=false", "state-has-foreign-id", "state-repeats-fixed-variable", "dependency-on-fixed"]
+        ["flag-relaxed!=flag-all", "tolerance-inside", "tolerance-outside", "bound-reject", "bound-tolerated", "missing-used", "irrelevant-filled", "dependency", "fixed-variable", "removed-constraint", "feasible=true", "feasible=false", "state-has-foreign-id", "state-repeats-fixed-variable", "dependency-on-fixed", "big-bound-on", "big-bound-steps-outside"]
             .iter()
             .map(|s| s.to_string())
             .collect()
@@ -184,7 +184,30 @@ impl Property for C05 {
                         (lo.is_finite() || hi.is_finite()) && !gi.dependent.contains(&v.id) && !gi.fixed.contains(&v.id)
                     })
                     .collect();
-                if !cands.is_empty() {
+                let big = t.p(72);
+                if big && !cands.is_empty() {
+                    // a bound of large magnitude (where 1e-7 is below the spacing of the doubles) and a value a few
+                    // representable steps outside: far beyond any rounding of `bound +- 1e-7`, hence rejected;
+                    // zero steps outside: accepted
+                    let vid = t.pick(&cands).id;
+                    let m = *t.pick(&[1.0e9f64, 2.0e9, 1.0e12, 4.0e15]);
+                    let j = *t.pick(&[0u64, 5, 6, 7, 40]);
+                    let upper = t.coin();
+                    let v = gi.inst.decision_variables.iter_mut().find(|v| v.id == vid).unwrap();
+                    if v.kind == KIND_CONTINUOUS || v.kind == KIND_INTEGER {
+                        let (lo, hi) = effective_bound(v).unwrap();
+                        let x = f64::from_bits(m.to_bits() + j);
+                        if upper {
+                            v.bound = Some(crate::mk::bound(lo.min(0.0), m));
+                            state.entries.insert(vid, x);
+                        } else {
+                            v.bound = Some(crate::mk::bound(-m, hi.max(0.0)));
+                            state.entries.insert(vid, -x);
+                        }
+                        ctx.label(if j == 0 { "big-bound-on" } else { "big-bound-steps-outside" });
+                        ctx.nontrivial();
+                    }
+                } else if !cands.is_empty() {
                     let v = *t.pick(&cands);
                     let (lo, hi) = effective_bound(v).unwrap();
                     let far = t.coin();
